@@ -21,6 +21,33 @@ CHECKS = {
             "Histories of sets, rand_mode toggles, rangelist/list edits and five call kinds over a two-object world with sub-objects; "
             "TLC checks after every call that every path outside UsedRand(call) in all objects is unchanged and that probe tables "
             "equal Sol computed from the current non-random values and container contents.", "6 C03"),
+    "C10": ("TLA+ trace validation (Trace_VscCov): TLC recomputes the declarative bin partition and every counter after every sample",
+            "Random bin specifications over types of 2..8 bits, each sampled with every value of the type plus repeats and gated-off "
+            "samples; every event logs all regular/ignore/illegal counters and TLC requires them to equal the counters of the "
+            "specification, whose bins are Partition(Values \\ Excluded, n) from Cov.tla.", "6 C10"),
+    "C11": ("TLA+ trace validation (Trace_VscCov): cross = row-major product of flat bins, incremented iff all iffs hold and every coverpoint hit",
+            "Crosses of 2..3 coverpoints of mixed bin kinds with iff on cross and coverpoints, sampled with all value combinations and "
+            "gated sequences; TLC checks the number of cross bins and that exactly the bin of the combination is incremented.", "6 C11"),
+    "C12": ("TLA+ trace validation (Trace_VscCov): type data defined as bin-wise sum of same-structure instances; exact weighted at_least coverage",
+            "Populations of 1..3 shapes x 1..3 instances (same and different classes, parameterised variants), interleaved creation "
+            "and sampling, at_least and weight options; after every event TLC checks the instance/type partition, the sums, the "
+            "coverage figures against the exact rational definition, range, monotonicity and 100 iff all covered.", "6 C12"),
+    "C13": ("TLA+ trace validation (Trace_VscCov): report model, parsed text report and XML read back must equal the in-memory projection tied to the spec state",
+            "Report/save events at arbitrary points of C12-style histories and over all bin kinds; three independent projections are "
+            "compared by TLC with the memory projection (names, kinds, counts, percentages) which itself must equal the "
+            "specification state; the following events are validated from the unchanged state (read-only).", "6 C13"),
+    "C17": ("TLA+ trace validation (Trace_VscRand): callback events vs UsedObjs of the call",
+            "Random 3-level object trees with object lists and random/non-random members, all call kinds, callbacks that assign "
+            "non-random fields; TLC checks pre/post exactly once on exactly the used-random composites, pre before post, the solver "
+            "sees the values assigned by pre_randomize, post sees final values.", "6 C17"),
+    "C18": ("TLA+ trace validation (Trace_Cells): every read path after every write must equal Wrap(v, w)",
+            "Exhaustive integers -2^(w+1)..2^(w+1) for small widths and boundary values up to 64 bits, through every write path "
+            "(attribute, set_val, .val, constructor, list append/extend/setitem/assign, enum) and every part-select bound; TLC "
+            "evaluates the bit-vector model of TypeCells.tla.", "6 C18"),
+    "C19": ("TLA+ trace validation (Trace_VscCov): WildMatch / WildVals of Cov.tla vs observed hits, exhaustive value/mask pairs",
+            "Every canonical (value, mask) pair of the tier's width as single wildcard bin and as wildcard bin array (with counts), "
+            "multi-pattern bins and strings in three bases; each shape swept with every value; TLC decides hit iff some pattern "
+            "agrees on all non-wildcard bits and the array partition.", "6 C19"),
 }
 
 
